@@ -341,7 +341,7 @@ func TestC07(t *testing.T) {
 	}
 	rec.Describe("case = a schema from the unevaluated* lens (tree of allOf/anyOf/oneOf/if-then-else/dependentSchemas/$ref/$dynamicRef/not to depth 4 over properties/patternProperties/additionalProperties resp. prefixItems/items/contains leaves, failing branches, cousins, nested unevaluated*) evaluated against ALL 16 objects over {a,b,c,d} resp. ALL 31 arrays over {1,\"x\"} of length<=4. Oracle: reference evaluator with explicit evaluated sets. Non-trivial (semantic rule): the specification's verdict differs from a deliberately wrong evaluator that ignores in-place annotations, or from one that leaks annotations of failed subschemas and of not — i.e. the verdict depends on exactly the annotation flow the property describes. Distinct = distinct (schema, instance).",
 		"single-resource documents: $dynamicRef is exercised as an annotation-carrying in-place applicator (its scoping is C06's)")
-	rapid.Check(t, propC07(rec))
+	rapid.Check(t, watched("C07", propC07(rec)))
 }
 
 // propC07 is the property body, shared by TestC07 (rapid) and FuzzC07 (native fuzzing over
@@ -349,6 +349,7 @@ func TestC07(t *testing.T) {
 func propC07(rec *ev.Recorder) func(t *rapid.T) {
 	return func(t *rapid.T) {
 		c := genC07(t)
+		ev.SetCurrent("C07", c)
 		c.Long = c.Mode == "array" && rapid.IntRange(0, 5).Draw(t, "longarrays") == 0
 		rec.ClassIf(c.Long, "instances:long-arrays")
 		rec.Class("mode:" + c.Mode)
